@@ -28,18 +28,25 @@ def scenarios(quick):
         mut=[(T.tee_rejoin2(maxseq=2), 'SpecZL', ['C01a', 'id_not_carried'], {}),
              (T.tee_rejoin2(maxseq=2, explicit_b=True), 'SpecZL', ['no_inval'], {}),
              (T.chain2(maxseq=1), 'SpecPrompt', ['partial_ok'], {}),
-             (T.tee_rejoin2(maxseq=1, skipA=(0,), skip=(), slowB=True, explicit_b=True), 'SpecPrompt', ['C01b'], dict(lq=10))],
+             (T.tee_rejoin2(maxseq=1, skipA=(0,), skip=(), slowB=True, explicit_b=True), 'SpecPrompt', ['C01b'], dict(lq=10))] +
+            ([] if quick else [(T.tee_rejoin_multi(maxseq=2), 'SpecZL', ['inval_complete_only'], dict(max_faults=1, fault_kinds=['drop']))]),
         # conformance replay: (topology, scheduling, number of behaviours, depth)
         conf=[(T.tee_rejoin2(maxseq=2), 'SpecPrompt', 12 if quick else 150, 200),
               (T.tee_rejoin2(maxseq=2, explicit_b=True, slowB=True), 'SpecPrompt', 8 if quick else 100, 200),
               (T.join2(maxseq=2), 'SpecPrompt', 8 if quick else 100, 150),
-              (T.hidden(maxseq=1), 'Spec', 6 if quick else 100, 200)],
+              (T.hidden(maxseq=1), 'Spec', 6 if quick else 100, 200),
+              (T.tee_rejoin_multi(maxseq=3), 'SpecPrompt', 6 if quick else 80, 250),
+              (T.tee_rejoin_relay(maxseq=2), 'SpecPrompt', 6 if quick else 80, 250)],
         # random schedules on the real code: (topology, runs, steps, p_timeout, p_drop)
         rand=[(T.tee_rejoin2(maxseq=3), 10 if quick else 200, 700, 0.03, 0.0),
               (T.tee_rejoin2(maxseq=3, skipA=(0,), skip=(2,), slowB=True, explicit_b=True), 12 if quick else 200, 700, 0.03, 0.0),
               (T.tee_rejoin2(maxseq=3, skip=(1, 2), explicit_b=True), 8 if quick else 150, 700, 0.05, 0.05),
               (T.join2(maxseq=3), 8 if quick else 150, 500, 0.05, 0.05),
-              (T.hidden(maxseq=2), 6 if quick else 100, 500, 0.05, 0.05)],
+              (T.hidden(maxseq=2), 6 if quick else 100, 500, 0.05, 0.05),
+              # varying topic sets + skipping branch + lost publishes: a half-read sibling buffer must be invalidated too
+              (T.tee_rejoin_multi(maxseq=5), 14 if quick else 250, 900, 0.03, 0.08),
+              # the rejoin is a relay (recv() is called with the sender's state): adopted ids must survive recv() slices
+              (T.tee_rejoin_relay(maxseq=3), 16 if quick else 250, 900, 0.03, 0.0)],
     )
 
 
@@ -57,7 +64,9 @@ def run(ctx):
     for topo, spec, bounds in sc['mc']:
         eng.model_check(topo, spec, invariants=INV, bounds=bounds, timeout=900 if ctx.quick else 3000)
     for topo, spec, muts, bounds in sc['mut']:
-        eng.mutation_schedules(topo, spec, muts, invariant='C01', bounds=bounds, timeout=600)
+        bounds = dict(bounds)
+        fk = {k: bounds.pop(k) for k in ('max_faults', 'fault_kinds') if k in bounds}
+        eng.mutation_schedules(topo, spec, muts, invariant='C01', bounds=bounds, timeout=600, victims=topo.names if fk else (), **fk)
     for topo, spec, num, depth in sc['conf']:
         eng.conformance(topo, spec, num, depth)
     eng.cover(topos.join2(maxseq=0), 'SpecPrompt', max_paths=150 if ctx.quick else None)
